@@ -23,9 +23,21 @@ package dastard
 // lancero package implements them, not those of the repository's NoHardware stub: StartAdapter
 // stops the adapter first (adapter.start calls adapter.stop), ChangeRingBuffer stops it
 // (allocateRingBuffer calls stop), StartCollector/StopCollector are register writes that never
-// fail. Frames are whole, in readout order, frame bit on row 0 (NoHardware's layout); bytes stay
+// fail unless a fault is injected (below). Frames are whole, in readout order, frame bit on row 0 (NoHardware's layout); bytes stay
 // in the ring until released. Wait returns after 20 ms whether or not data arrived (the stub's
 // pace; the real Wait blocks in the driver for a threshold interrupt).
+//
+// Hardware faults on the shutdown path (faulted configuration). A stop request may report an
+// error, as the real devices' do: collector.stop is a register write followed by a flushing read
+// (either can fail), adapter.stop reports "could not set state RUN|FLUSH" before, or "could not
+// set state 0" after, it stopped the DMA engine; AbacoUDPReceiver.stop returns the error of
+// conn.Close(). c10bCard.armStopFault makes the n-th StopCollector and/or StopAdapter call from
+// now report such an error, either with the component stopped nevertheless (the error concerns
+// the confirmation) or with the component still running (the request did not reach the card:
+// the component is then "stuck" until the next request that stops or restarts it, and the
+// devices-released check does not count it). The fault is over after that one call: every later
+// request is obeyed. c10bPort.stopErr makes the next stop() of the bound receiver release the
+// port and return an error.
 
 import (
 	"bytes"
@@ -96,6 +108,8 @@ type c10bPort struct {
 	// faults
 	startErr   error // the next start() fails with this error (port taken by somebody else for a moment)
 	readErrNow bool  // the next ReadAllPackets of a bound receiver returns an error
+	stopErr    bool  // the next stop() of the bound receiver releases the port and reports an error
+	nStopErrs  int
 	nPackets   int
 }
 
@@ -138,6 +152,13 @@ func (p *c10bProducer) stop() error {
 	p.stopped = true
 	if p.port.boundBy == p {
 		p.port.boundBy = nil
+	}
+	if p.port.stopErr {
+		p.port.stopErr = false
+		p.port.nStopErrs++
+		simrt.Fault("producer-stop-error")
+		p.port.hw.env.Op("fault: stop of %s releases the port and reports an error", p.name())
+		return fmt.Errorf("close udp 127.0.0.1:%d: input/output error (simulated; the socket is closed)", 4000+p.port.id)
 	}
 	return nil
 }
@@ -249,6 +270,7 @@ func (p *c10bProducer) ReadAllPackets() ([]*packets.Packet, error) {
 
 type c10bCard struct {
 	hw          *c10bHW
+	id          int
 	rows, cols  int
 	framePeriod time.Duration
 	isOpen      bool
@@ -262,6 +284,45 @@ type c10bCard struct {
 	nReads      int
 	// fault: the hardware goes silent at the moment of this StartAdapter call (0: never)
 	silentAtAdapStart int
+	// fault: the n-th StopCollector / StopAdapter call from now reports an error (0: none)
+	collFaultIn, adapFaultIn int
+	faultObeyed              bool // the component stops nevertheless
+	collStuck, adapStuck     bool // still running because a faulted stop request did not reach the card
+	nStopFaults              int
+	phase                    func() string // what the source is doing (for the probes and the replay log)
+}
+
+// armStopFault: see the header comment.
+func (lc *c10bCard) armStopFault(collIn, adapIn int, obeyed bool) {
+	lc.collFaultIn, lc.adapFaultIn, lc.faultObeyed = collIn, adapIn, obeyed
+}
+
+func (lc *c10bCard) stopFaultArmed() bool { return lc.collFaultIn > 0 || lc.adapFaultIn > 0 }
+
+// stopFault is called by the two stop requests: true when this call is the faulted one.
+func (lc *c10bCard) stopFault(countdown *int, what string) bool {
+	if *countdown == 0 {
+		return false
+	}
+	*countdown--
+	if *countdown > 0 {
+		return false
+	}
+	lc.nStopFaults++
+	ph := "?"
+	if lc.phase != nil {
+		ph = lc.phase()
+	}
+	simrt.Fault("card-" + what + "-error")
+	simrt.Hit("card-stop-error-while-source-" + ph)
+	if lc.faultObeyed {
+		simrt.Hit("card-stop-error:component-stopped")
+	} else {
+		simrt.Hit("card-stop-error:component-keeps-running")
+	}
+	lc.hw.env.Op("fault: %s of card %d reports an error (source %s; the component %s)", what, lc.id, ph,
+		map[bool]string{true: "stops nevertheless", false: "keeps running"}[lc.faultObeyed])
+	return true
 }
 
 func (lc *c10bCard) frameSize() int { return lc.rows * lc.cols * 4 }
@@ -276,7 +337,7 @@ func (lc *c10bCard) ChangeRingBuffer(length, threshold int) error {
 	if length <= 0 || length%32 != 0 || threshold <= 0 || threshold*2 > length {
 		return fmt.Errorf("c10bCard.ChangeRingBuffer(%d, %d): invalid sizes", length, threshold)
 	}
-	lc.adap = false
+	lc.adap, lc.adapStuck = false, false
 	lc.ring = lc.ring[:0]
 	return nil
 }
@@ -284,6 +345,7 @@ func (lc *c10bCard) ChangeRingBuffer(length, threshold int) error {
 func (lc *c10bCard) Close() error {
 	lc.isOpen = false
 	lc.adap, lc.coll = false, false
+	lc.adapStuck, lc.collStuck = false, false
 	return nil
 }
 
@@ -294,13 +356,22 @@ func (lc *c10bCard) StartAdapter(waitSeconds, verbosity int) error {
 		simrt.Fault("silent-after-sampling")
 		lc.hw.env.Op("fault: the card stops sending when the run is about to begin (StartAdapter #%d)", lc.nAdapStarts)
 	}
-	lc.adap = true
+	lc.adap, lc.adapStuck = true, false
 	lc.begin()
 	return nil
 }
 
 func (lc *c10bCard) StopAdapter() error {
-	lc.adap = false
+	if lc.stopFault(&lc.adapFaultIn, "StopAdapter") {
+		if !lc.faultObeyed {
+			lc.adapStuck = lc.adap
+			return fmt.Errorf("adapter.stop() could not set state RUN|FLUSH (simulated card %d)", lc.id)
+		}
+		lc.adap, lc.adapStuck = false, false
+		lc.ring = lc.ring[:0]
+		return fmt.Errorf("adapter.stop() could not set state 0 (simulated card %d; the DMA engine is stopped)", lc.id)
+	}
+	lc.adap, lc.adapStuck = false, false
 	lc.ring = lc.ring[:0]
 	return nil
 }
@@ -310,13 +381,21 @@ func (lc *c10bCard) CollectorConfigure(linePeriod, dataDelay int, channelMask ui
 }
 
 func (lc *c10bCard) StartCollector(simulate bool) error {
-	lc.coll = true
+	lc.coll, lc.collStuck = true, false
 	lc.begin()
 	return nil
 }
 
 func (lc *c10bCard) StopCollector() error {
-	lc.coll = false
+	if lc.stopFault(&lc.collFaultIn, "StopCollector") {
+		if !lc.faultObeyed {
+			lc.collStuck = lc.coll
+			return fmt.Errorf("could not write file /dev/lancero_user%d offset: 0x104, value: 0x0 (simulated)", lc.id)
+		}
+		lc.coll, lc.collStuck = false, false
+		return fmt.Errorf("could not read file /dev/lancero_user%d offset: 0x100 (simulated; the collector is stopped, the flushing read failed)", lc.id)
+	}
+	lc.coll, lc.collStuck = false, false
 	return nil
 }
 
